@@ -42,6 +42,7 @@ type monitor struct {
 	curDepth int
 	maxEver  uint32 // highest value ever recorded (evidence only)
 	belowMaxEver int
+	belowNote string
 }
 
 type problem struct{ sig, detail string }
@@ -91,6 +92,7 @@ func (mo *monitor) on(e *events.Event) {
 		}
 		if b.Height <= mo.maxEver && b.Height > mo.recorded {
 			mo.belowMaxEver++
+			mo.belowNote = fmt.Sprintf("block h%d disconnected; recorded last irreversible height now %d, earlier maximum %d, pow=%v", b.Height, mo.recorded, mo.maxEver, mo.pow)
 		}
 		if b.Height <= mo.recorded {
 			mo.problems = append(mo.problems, problem{"C30:reorganize:detached-block-at-or-below-last-irreversible-height:" + mode(mo.pow),
@@ -271,6 +273,9 @@ func runCase(t *rapid.T, unit string, invalid bool) {
 	if cs.mo.maxDepth >= 6 {
 		vk.Class(unit + "/with-reorg-depth>=6")
 	}
+	if cs.mo.belowNote != "" {
+		vk.Note("sample:detached-at-or-below-earlier-higher-recorded-height", cs.mo.belowNote+" ops-tail="+fmt.Sprint(tail(m.Ops, 12)))
+	}
 	vk.Count("reorg-steps", int64(cs.reorgs))
 	vk.Count("detached-blocks-at-or-below-an-earlier-higher-recorded-height", int64(cs.mo.belowMaxEver))
 	vk.Count("deliveries", int64(m.Steps))
@@ -287,4 +292,11 @@ func TestIrreversible(t *testing.T) {
 // reorganisation must not detach irreversible blocks either).
 func TestIrreversibleWithInvalid(t *testing.T) {
 	rapid.Check(t, func(t *rapid.T) { runCase(t, "invalid", true) })
+}
+
+func tail(a []string, n int) []string {
+	if len(a) > n {
+		return a[len(a)-n:]
+	}
+	return a
 }
